@@ -526,6 +526,26 @@ func (e *SpecEnv) evalQuant(x *SX) (*SV, error) {
 		if tt, err := e.resolveType(b.Type); err == nil {
 			t = tt
 		}
+		if s == nil && t != nil {
+			if sl, ok := under(t).(*types.Slice); ok {
+				if es := scalarSort(sl.Elem()); es != nil {
+					av := Bound(b.Name+".a", ArraySort(IntSort, es))
+					lv := Bound(b.Name+".n", IntSort)
+					bound = append(bound, av, lv)
+					guards = append(guards, Ge(lv, IntC(0)))
+					if old, ok := e.vars[b.Name]; ok {
+						saved[b.Name] = old
+					} else {
+						saved[b.Name] = nil
+					}
+					e.vars[b.Name] = &SV{V: &SeqV{A: av, Len: lv}, T: t}
+					continue
+				}
+			}
+			if isString(t) {
+				s = StrSort
+			}
+		}
 		if s == nil {
 			return nil, fmt.Errorf("quantified variable %s: type %s has no scalar sort", b.Name, b.Type)
 		}
@@ -645,6 +665,9 @@ func (e *SpecEnv) evalIndex(x *SX) (*SV, error) {
 	switch u := under(b.T).(type) {
 	case *types.Slice:
 		i = e.coerce(i, types.Typ[types.Int])
+		if sq, ok := e.value(b).(*SeqV); ok {
+			return &SV{V: Select(sq.A, intOf(e.value(i).(*Term))), T: u.Elem()}, nil
+		}
 		sv, ok := e.value(b).(*SliceV)
 		if !ok {
 			return nil, fmt.Errorf("indexing a non-slice value")
